@@ -204,7 +204,7 @@ class ExprMixin:
             if attr in base.t:
                 return base.t[attr]
             info = S.CLASSES[ty.cls]
-            q = "%s.%s.%s" % (info["module"], ty.cls, attr)
+            q = "%s.%s.%s" % (info["module"], info.get("source_class", ty.cls), attr)
             if q in S.REGISTRY:  # property
                 return self.call_contract(S.REGISTRY[q], [base], {}, node, st, pure_only=True)
             raise Unsupported("attribute %s of %s" % (attr, ty.cls), node)
@@ -428,8 +428,17 @@ class ExprMixin:
         ty = TTuple([v.ty for v in vals])
         return Val(ty, t_mk(ty, *[v.t for v in vals]))
 
+    def as_value(self, v, node):
+        """objects stored into containers become values (sidecar `as_value` hook)"""
+        if isinstance(v.ty, TObj):
+            hook = S.CLASSES[v.ty.cls].get("as_value")
+            if hook is None:
+                raise Unsupported("object of class %s stored in a container" % v.ty.cls, node)
+            return hook(self, v, node)
+        return v
+
     def e_List(self, node, st, hint=None):
-        vals = [self.eval(e, st) for e in node.elts]
+        vals = [self.as_value(self.eval(e, st), node) for e in node.elts]
         if not vals:
             if hint is None:
                 raise Unsupported("empty list display without a type hint", node)
